@@ -141,6 +141,43 @@ def printLines {σ} (I : Iface σ) (s : σ) (b : String) (opts names : List Stri
 inductive Status | ok | abort | ret
   deriving DecidableEq
 
+/-- operand `m` / `m=v` of export and readonly -/
+def operandOf (t : String) : Name × Option Value :=
+  match splitAssign t with
+  | (n, ov) => (n, ov.map Value.scalar)
+
+/-- what a statement does, independently of the state: the operations come from `Exec.lean` -/
+inductive Action where
+  | special (ops : List Op)
+  | typeset (sc : Scope) (opts operands : List String)
+  | print (b : String) (opts names : List String)
+  | regular (kind : String) (temps : List (Name × Value))
+  | call (f : String) (temps : List (Name × Value)) (args : List String)
+  | ret
+  | bad
+
+def stmtAction (st : Stmt) : Action :=
+  match st.kind with
+  | "A" | "S" => .special (specialCmd (assigns st.pre) [])
+  | "E" => .special (specialCmd (assigns st.pre)
+      (st.post.flatMap fun t => exportOps (operandOf t).1 (operandOf t).2))
+  | "EX" => .special (st.pre.flatMap fun t => exportOps (operandOf t).1 (operandOf t).2)
+  | "R" => .special (st.pre.flatMap fun t => readonlyOps (operandOf t).1 (operandOf t).2 1)
+  | "U" | "UV" => .special (unsetOps st.pre)
+  | "SP" => .special [.setParams st.pre]
+  | "RET" => .ret
+  | "L" => .typeset .loc [] st.pre
+  | "G" => .typeset .global ["-g"] st.pre
+  | "T" => .typeset (if st.pre.contains "-g" then .global else .loc) st.pre st.post
+  | "D" => match st.pre with
+    | [] => .bad
+    | b :: opts => .print b opts st.post
+  | "P" | "N" | "X" => .regular st.kind (assigns st.pre)
+  | "C" => match st.pre with
+    | [] => .bad
+    | f :: temps => .call f (assigns temps) st.post
+  | _ => .bad
+
 /-- executes statements; returns the state, the lines printed (reversed) and how it ended -/
 def execStmts {σ} (I : Iface σ) (funs : List (String × List Stmt)) :
     Nat → σ → List Stmt → List String → σ × List String × Status
@@ -150,64 +187,45 @@ def execStmts {σ} (I : Iface σ) (funs : List (String × List Stmt)) :
     let out := s!"@{st.kind}" :: out
     let fin (s' : σ) (out : List String) :=
       execStmts I funs fuel s' rest (vline I (expOf I s') s' :: out)
-    let special (ops : List Op) :=
+    match stmtAction st with
+    | .special ops =>
       match runOps I s ops with
       | (s', true) => (s', out, Status.abort)
       | (s', false) => fin s' out
-    match st.kind with
-    | "A" | "S" => special (specialCmd (assigns st.pre) [])
-    | "E" =>
-      special (specialCmd (assigns st.pre)
-        (st.post.flatMap fun t => operandOps .global t ++ [.export (operandName t) .global true]))
-    | "EX" => special (st.pre.flatMap fun t => operandOps .global t ++ [.export (operandName t) .global true])
-    | "R" => special (st.pre.flatMap fun t => operandOps .global t ++ [.readonly (operandName t) .global 1])
-    | "U" | "UV" => special (st.pre.map fun n => Op.unset n .global)
-    | "SP" => special [.setParams st.pre]
-    | "RET" => (s, out, .ret)
-    | "L" | "G" | "T" =>
+    | .ret => (s, out, .ret)
+    | .bad => (s, "bad" :: out, .abort)
+    | .typeset sc opts operands =>
       -- `typeset` is a regular built-in (volatile context around it) and survives errors
-      let opts := if st.kind = "G" then ["-g"] else if st.kind = "T" then st.pre else []
-      let operands := if st.kind = "T" then st.post else st.pre
-      let sc := if opts.contains "-g" then Scope.global else Scope.loc
       let s1 := (I.step s (.push .volatile)).1
       let s2 := operands.foldl (typesetField I sc opts) s1
       fin (I.step s2 .pop).1 out
-    | "D" =>
-      match st.pre with
-      | [] => (s, "bad" :: out, .abort)
-      | b :: opts =>
-        let s1 := if b = "t" then (I.step s (.push .volatile)).1 else s
-        -- `export -p m` / `readonly -p m` of a name that is not a variable: error in a special
-        -- built-in, the shell exits
-        if b != "t" && st.post.any (fun n => (I.getIn s n .global).isNone) then (s, out, .abort)
-        else
-          let out := (printLines I s1 b opts st.post).reverse ++ out
-          fin s out
-    | "P" | "N" | "X" =>
+    | .print b opts names =>
+      let s1 := if b = "t" then (I.step s (.push .volatile)).1 else s
+      -- `export -p m` / `readonly -p m` of a name that is not a variable: error in a special
+      -- built-in, the shell exits
+      if b != "t" && names.any (fun n => (I.getIn s n .global).isNone) then (s, out, .abort)
+      else fin s ((printLines I s1 b opts names).reverse ++ out)
+    | .regular kind temps =>
       let exp := expOf I s
-      match runOps I s ([Op.push .volatile] ++ tempOps (assigns st.pre)) with
+      match runOps I s ([Op.push .volatile] ++ tempOps temps) with
       | (s1, true) => (s1, out, .abort)
       | (s1, false) =>
         let out :=
-          if st.kind = "P" then vline I exp s1 :: out
-          else if st.kind = "X" then
+          if kind = "P" then vline I exp s1 :: out
+          else if kind = "X" then
             ("e " ++ ",".intercalate ((I.env s1 scriptNames).map fun (n, x) => s!"{n}={x}")) :: out
           else out
         fin (I.step s1 .pop).1 out
-    | "C" =>
-      match st.pre with
-      | [] => (s, "bad" :: out, .abort)
-      | f :: temps =>
-        match funs.lookup f with
-        | none => (s, "bad" :: out, .abort)
-        | some body =>
-          match runOps I s ([Op.push .volatile] ++ tempOps (assigns temps)) with
-          | (s1, true) => (s1, out, .abort)
-          | (s1, false) =>
-            let s2 := (I.step s1 (.push (.regular st.post))).1
-            match execStmts I funs fuel s2 body out with
-            | (s3, out, .abort) => (s3, out, .abort)
-            | (s3, out, _) => fin (I.step (I.step s3 .pop).1 .pop).1 out
-    | _ => (s, "bad" :: out, .abort)
+    | .call f temps args =>
+      match funs.lookup f with
+      | none => (s, "bad" :: out, .abort)
+      | some body =>
+        match runOps I s ([Op.push .volatile] ++ tempOps temps) with
+        | (s1, true) => (s1, out, .abort)
+        | (s1, false) =>
+          let s2 := (I.step s1 (.push (.regular args))).1
+          match execStmts I funs fuel s2 body out with
+          | (s3, out, .abort) => (s3, out, .abort)
+          | (s3, out, _) => fin (I.step (I.step s3 .pop).1 .pop).1 out
 
 end YashModel.Variable
